@@ -19,6 +19,14 @@ var (
 		{Name: "e", Ver: "^2", Msg: "not found"},
 		{Name: "e", Ver: "^1", Msg: "bad"},
 		{Name: "d", Ver: "*", Msg: "not found"},
+		// The same package and text under the other VersionType.
+		{Name: "e", Ver: "^1", Msg: "not found", Concrete: true},
+		{Name: "d", Ver: "*", Msg: "not found", Concrete: true},
+		// Names that are not valid UTF-8 and differ in one byte (lib\xfe, lib\xff),
+		// and the replacement character itself.
+		{Name: "hex:6c6962fe", Ver: "*", Msg: "not found"},
+		{Name: "hex:6c6962ff", Ver: "*", Msg: "not found"},
+		{Name: "lib\ufffd", Ver: "*", Msg: "not found"},
 	}
 )
 
